@@ -180,7 +180,7 @@ def setup(ctx):
 
 def workload(ctx):
     rng = ctx.rng(1)
-    for i in range(ctx.n(500, 6000)):
+    for i in range(ctx.n(500, 40000)):
         yield "sequence", {"ops": gen_sequence(rng, 30 if i % 4 else 8), "init": {NAMES[0]: 4.04} if i % 3 == 0 else {}}
 
 
